@@ -15,16 +15,18 @@ static std::string why;
 static uint64_t rs_;
 static uint64_t rnd() { rs_ ^= rs_ << 13; rs_ ^= rs_ >> 7; rs_ ^= rs_ << 17; return rs_; }
 #define FAIL(...) do { char m_[300]; snprintf(m_, sizeof m_, __VA_ARGS__); why = m_; return false; } while (0)
-template<size_t N> struct SP : public LockfreeSPSCRingQueue<uint64_t, N> { void start(uint64_t b) { this->head.store(b); this->tail.store(b); } };
-template<size_t N> struct BQ : public LockfreeBatchMPMCRingQueue<uint64_t, N> { void start(uint64_t b) { this->head.store(b); this->tail.store(b); this->write_head.store(b); this->read_tail.store(b); } };
-template<size_t N> struct MP : public LockfreeMPMCRingQueue<uint64_t, N> { void start(uint64_t) { }
+template<size_t N> struct SP : public LockfreeSPSCRingQueue<uint64_t, N> { void start(uint64_t b) { this->head.store(b); this->tail.store(b); }
+    // all-or-nothing batch push (the async logger's enqueue path)
+    size_t push_fully(const uint64_t* x, size_t n) { return this->produce_push_batch_fully(n, [&](uint64_t* p1, size_t n1, uint64_t* p2, size_t n2) { memcpy(p1, x, n1 * sizeof(uint64_t)); if (n2) memcpy(p2, x + n1, n2 * sizeof(uint64_t)); }); } };
+template<size_t N> struct BQ : public LockfreeBatchMPMCRingQueue<uint64_t, N> { size_t push_fully(const uint64_t*, size_t) { return (size_t)-1; } void start(uint64_t b) { this->head.store(b); this->tail.store(b); this->write_head.store(b); this->read_tail.store(b); } };
+template<size_t N> struct MP : public LockfreeMPMCRingQueue<uint64_t, N> { void start(uint64_t) { } size_t push_fully(const uint64_t*, size_t) { return (size_t)-1; }
     size_t push_batch(const uint64_t*, size_t) { return 0; } size_t pop_batch(uint64_t*, size_t) { return 0; } };   // no batch interface: never called (batch == false)
 template<class Q> static bool drive(Q& q, size_t cap, uint64_t base, bool batch, std::string* desc, const char* name) {
     q.start(base); std::deque<uint64_t> m; uint64_t next = 1; char b[96];
     snprintf(b, sizeof b, "%s cap=%zu start=2^64-%lu:", name, cap, (unsigned long)(0 - base)); *desc = b;
     int nops = 10 + rnd() % 60;
     for (int k = 0; k < nops; k++) {
-        int op = rnd() % (batch ? 4 : 2);
+        int op = rnd() % (batch ? 5 : 2);
         if (op == 0) {
             uint64_t v = next++; bool r = q.push(v); snprintf(b, sizeof b, " push"); *desc += b;
             if (r != (m.size() < cap)) FAIL("push returned %d with %zu of %zu slots used", (int)r, m.size(), cap);
@@ -38,6 +40,12 @@ template<class Q> static bool drive(Q& q, size_t cap, uint64_t base, bool batch,
             size_t r = q.push_batch(x, n); snprintf(b, sizeof b, " push_batch(%zu)", n); *desc += b;
             size_t exp = std::min(n, cap - m.size());
             if (r != exp) FAIL("push_batch(%zu) accepted %zu with %zu of %zu slots used (expected %zu)", n, r, m.size(), cap, exp);
+            for (size_t i = 0; i < r; i++) m.push_back(x[i]); next += r;
+        } else if (op == 4) {
+            size_t n = rnd() % (cap + 3); uint64_t x[64]; for (size_t i = 0; i < n; i++) x[i] = next + i;
+            size_t r = q.push_fully(x, n); if (r == (size_t)-1) continue; snprintf(b, sizeof b, " push_fully(%zu)", n); *desc += b;
+            size_t exp = n <= cap - m.size() ? n : 0;
+            if (r != exp) FAIL("produce_push_batch_fully(%zu) accepted %zu with %zu of %zu slots used (all or nothing: expected %zu)", n, r, m.size(), cap, exp);
             for (size_t i = 0; i < r; i++) m.push_back(x[i]); next += r;
         } else {
             size_t n = rnd() % (cap + 3); uint64_t x[64]; memset(x, 0xEE, sizeof x);
